@@ -227,9 +227,15 @@ pub fn r8_metadata_family() -> ListSpace {
 /// strings (> 65536) and - in the second file - more entries (> 65536) between them than any plausible bound on an
 /// interning / de-duplication table or a 16-bit index; the same original name again in a second class
 pub fn far_apart_family(both: bool) -> ListSpace {
+    far_apart_family_level(if both { 2 } else { 0 })
+}
+/// level 0: 23000 fillers; 1: also 66000 fillers (more than 2^16 entries); 2: also 750000 fillers (> 2^21 strings)
+pub fn far_apart_family_level(level: usize) -> ListSpace {
+    let both = level >= 1;
+    let huge = level >= 2;
     let mut files: Vec<(Vec<Line>, Term)> = Vec::new();
     for (fillers, with_args) in [(23000usize, true), (66000usize, false), (750000usize, true)] {
-        if !both && (!with_args || fillers > 100000) {
+        if (!both && !with_args) || (!huge && fillers > 100000) {
             continue;
         }
         let mut f = Vec::with_capacity(fillers + 8);
@@ -284,6 +290,33 @@ pub fn big_multiclass_family() -> ListSpace {
         }
     }
     ListSpace { name: "MS-H3 large multi-class mapping".into(), note: "one mapping of 24000 classes x 10 methods (about 17 MiB of text) with strings shared between far-apart classes".into(), files: vec![(f, Term::Lf)], wide: false, chunk: Default::default() }
+}
+
+/// MS-W file-level headers in front of classes whose members are NOT in the order of their obfuscated names: nothing a
+/// `# compiler: ...` / `# min_api` / `# pg_map_id` header says may change how members are collected
+pub fn file_header_family() -> ListSpace {
+    let mut files: Vec<(Vec<Line>, Term)> = Vec::new();
+    let body = vec![
+        class("p.A", "a"),
+        method(Some((1, 2)), None, "zeta", "", Orig::SE(3, 4), "z"),
+        method(None, None, "alpha", "int", Orig::None, "a"),
+        method(Some((5, 6)), None, "mid", "", Orig::S(9), "m"),
+        method(None, None, "alpha2", "", Orig::None, "a"),
+        class("p.B", "b"),
+        method(None, None, "q", "", Orig::None, "n"),
+        method(None, None, "p", "", Orig::None, "b"),
+    ];
+    for (k, v) in [("compiler", Some("R8")), ("compiler", Some("D8")), ("compiler", Some("ProGuard")), ("compiler_version", Some("8.1.56")), ("min_api", Some("21")), ("pg_map_id", Some("1a2b3c")), ("pg_map_hash", Some("SHA-256 0123")), ("common_typos_disable", None)] {
+        let h = Line::Header { key: k, value: v };
+        let mut f = vec![h];
+        f.extend_from_slice(&body);
+        files.push((f, Term::Lf));
+        // the header behind the first class line
+        let mut g = body.clone();
+        g.insert(1, h);
+        files.push((g, Term::Lf));
+    }
+    ListSpace { name: "MS-W file-level headers".into(), note: "8 file-level headers (compiler R8 / D8 / ProGuard, compiler_version, min_api, pg_map_id, pg_map_hash, a valueless one) in front of / inside two classes whose members are not ordered by obfuscated name".into(), files, wide: false, chunk: Default::default() }
 }
 
 /// one character per UTF-8 lead-byte class, all 64 continuation bytes (U+0100..U+013F = C4 80 .. C4 BF), and ASCII punctuation
